@@ -169,6 +169,11 @@ func (w *world) sizeCases(r *c.Rng, tier string, emit func(xcase)) {
 			targets = append(targets, 1+r.Intn(1<<17))
 		}
 	}
+	type job struct {
+		kind int
+		v    value
+	}
+	var jobs []job
 	for _, t := range targets {
 		kinds := []int{szCompressible, szIncompressible}
 		if t <= 1<<16+1 || tier == "thorough" {
@@ -178,7 +183,7 @@ func (w *world) sizeCases(r *c.Rng, tier string, emit func(xcase)) {
 			if k == szIncompressible && t > 1<<17 && tier != "thorough" {
 				continue
 			}
-			emit(w.roundCase(k, sized(r, k, t), pst))
+			jobs = append(jobs, job{k, sized(r, k, t)})
 		}
 	}
 	groups := []int{0, 1, 10, 100, 300, 550, 600, 650, 700, 1000, 2000, 5000}
@@ -186,7 +191,24 @@ func (w *world) sizeCases(r *c.Rng, tier string, emit func(xcase)) {
 		groups = append(groups, 20000, 100+r.Intn(900), 1000+r.Intn(4000))
 	}
 	for _, n := range groups {
-		emit(w.roundCase(szGroups, withGroups(r, n), pst))
+		jobs = append(jobs, job{szGroups, withGroups(r, n)})
+	}
+	// values are fixed above (all randomness drawn); seal and open them on a few workers, keep the order
+	out := make([]xcase, len(jobs))
+	var wg sync.WaitGroup
+	sem := make(chan struct{}, 8)
+	for i, j := range jobs {
+		wg.Add(1)
+		go func(i int, j job) {
+			defer wg.Done()
+			sem <- struct{}{}
+			out[i] = w.roundCase(j.kind, j.v, pst)
+			<-sem
+		}(i, j)
+	}
+	wg.Wait()
+	for _, cs := range out {
+		emit(cs)
 	}
 }
 
